@@ -4,7 +4,8 @@
 //! use-after-free, double free, invalid UTF-8 assumptions and, at exit, that nothing is leaked.
 #![allow(improper_ctypes)]
 use riti::config::Config;
-use riti::context::RitiContext;
+/// the context handle is opaque on the C side; the test does not depend on the Rust type behind it
+#[repr(C)] pub struct RitiContext { _private: [u8; 0] }
 use riti::suggestion::Suggestion;
 use std::ffi::{CStr, CString};
 use std::os::raw::c_char;
@@ -196,9 +197,15 @@ unsafe fn eager_cycle(phonetic: bool, suggestions: bool, ansi: bool, keys: &[u16
     riti_config_set_fixed_suggestion(cfg, suggestions);
     riti_config_set_ansi_encoding(cfg, ansi);
     let ctx = riti_context_new_with_config(cfg);
+    // the context is independently owned: the host may free (or go on editing) its config object at once
+    riti_config_set_phonetic_suggestion(cfg, !suggestions);
+    riti_config_set_ansi_encoding(cfg, !ansi);
+    riti_config_free(cfg);
     for round in 0..2 {
         for k in keys {
             let s = riti_get_suggestion_for_key(ctx, *k, 0, 0);
+            // the options are those of the configuration at creation time, whatever the host did to its object afterwards
+            if !riti_suggestion_is_empty(s) { assert_eq!(riti_suggestion_is_lonely(s), !suggestions); }
             let strings = read_out(s);
             let again = read_out(s);
             recheck_and_free(strings);
@@ -214,7 +221,6 @@ unsafe fn eager_cycle(phonetic: bool, suggestions: bool, ansi: bool, keys: &[u16
         if round == 0 { riti_context_finish_input_session(ctx); }
     }
     riti_context_free(ctx);
-    riti_config_free(cfg);
 }
 
 #[test]
